@@ -141,8 +141,9 @@ def mutate(rng, role, msgs, which):
         elif which == "piece-len8": ins = M(be32(8) + bytes([7]) + bytes(7), which)
         elif which == "ext-2^15": ins = M(msg(20, bytes([rng.randrange(3)]) + bytes(rng.randrange(256) for _ in range(1 << 15))), which, True)
         elif which == "ext-2^15+1": ins = M(be32((1 << 15) + 3) + bytes([20, 1]) + bytes(20), which)
-        elif which == "ext-type3": ins = M(msg(20, b"\x03" + b"de"), which)
-        elif which == "ext-type255": ins = M(msg(20, b"\xff" + b"de"), which)
+        # (ext=True: where the implementation's policy accepts unknown types the message completes and counts)
+        elif which == "ext-type3": ins = M(msg(20, b"\x03" + b"de"), which, True)
+        elif which == "ext-type255": ins = M(msg(20, b"\xff" + b"de"), which, True)
         elif which == "ext-len1": ins = M(be32(1) + bytes([20]), which)
         elif which == "ext-len2": ins = M(be32(2) + bytes([20, rng.randrange(3)]), which, True)
         elif which == "truncate":
